@@ -370,6 +370,22 @@ def _mk_seq_optnull(**s):
     return av
 
 
+# untagged CHOICE whose alternatives are constructed types that may be empty
+CH_CONS = T("CHOICE", comps=[("l", T("SEQOF", elem=INT), "req", None), ("s", T("SET", comps=[("x", INT, "opt", None)]), "req", None),
+                             ("o", T("SETOF", elem=OCTS).tagged(("I", "C", 0)), "req", None), ("n", NULL, "req", None)], name="CHOICE{l SEQOF INT,s SET{x INT?},o [0]I SETOF OCTS,n NULL}")
+
+
+def _mk_choice_cons(**s):
+    w = s["w"]
+    if w == 0:
+        return ("l", [s["i0"], 5][: s["k"]])
+    if w == 1:
+        return ("s", {"x": s["i0"]} if s["k"] else {})
+    if w == 2:
+        return ("o", [bytes([s["o0"]]), b""][: s["k"]])
+    return ("n", None)
+
+
 # OPTIONAL constructed members: "absent" and "present but empty" are different abstract values
 SEQ_OPTC = T("SEQ", comps=[("a", INT, "req", None),
                            ("i", T("SEQ", comps=[("x", INT, "opt", None)]), "opt", None),
@@ -413,6 +429,9 @@ def constructed():
     C.append(Entry("seq_hitags", SEQ_HITAGS, P_SEQ_HITAGS, _mk_seq_hitags, ["constructed", "record", "tagged_members"], shard=("hb", "he")))
     C.append(Entry("seq_hitags.E", SEQ_HITAGS_E, {"i0": SMALL, "i1": I(0, 1), "hc": B, "o0": BYTE, "n": I(0, 1)}, _mk_seq_hitags_e,
                    ["constructed", "record", "tagged_members", "has_explicit"]))
+    C.append(Entry("choice_cons", CH_CONS, {"w": I(0, 3), "i0": SMALL, "k": I(0, 2), "o0": BYTE}, _mk_choice_cons, ["constructed", "choice"], shard=("w",)))
+    C.append(Entry("seqof_choice_cons", T("SEQOF", elem=CH_CONS), {"w": I(0, 3), "i0": SMALL, "k": I(0, 2), "o0": BYTE, "k2": I(0, 2)},
+                   lambda **s: [_mk_choice_cons(**s), ("l", [])][: s["k2"]], ["constructed", "list", "nested", "choice"], shard=("w",)))
     C.append(Entry("seq_wide", SEQ_WIDE, {"i0": SMALL, "o0": BYTE, "n": I(0, 2)}, _mk_seq_wide, ["constructed", "record", "univ"]))
     C.append(Entry("seq_optnull", SEQ_OPTNULL, {"o0": BYTE, "n": I(0, 1), "hb": B, "hc": B, "hd": B, "f0": B, "he": B, "i1": I(0, 1)}, _mk_seq_optnull,
                    ["constructed", "record", "has_explicit"]))
